@@ -270,6 +270,8 @@ def conform(iname, mname, rname, bc, idx, dtmode, tab, res=None):
     site = "C05/%s/conformance" % iname
     cur = f0
     for depth in (1, 2):
+        if depth == 2 and isinstance(dt, np.ndarray):
+            dt *= 0.5       # the caller's own array, updated in place between two steps: the second step uses its current values
         a = cur.copy()
         rec.times = []
         with np.errstate(all="ignore"):
